@@ -134,7 +134,8 @@ def run(pid, tier):
                     rep["chains"], model_chains))
         if not samples:
             for row in ex["rows"]:
-                if len(row["c"]) >= 3 and len(row["e"]) >= 2 and row["v"] == row["f"]:
+                if len(row["c"]) >= 3 and len(row["e"]) >= 2 and row["v"] == row["f"] \
+                        and sum(len(b) for b in mon.chain_blocks(ex, row)) >= 3:
                     samples.append({"chain": mon.chain_blocks(ex, row), "mode": mode,
                                     "requests_applied": [mon.edge_requests(ex, row, e[1])[-1] for e in row["e"][:3]],
                                     "view_equals_fresh_replay": True})
